@@ -6,6 +6,7 @@ mod c07;
 mod c08;
 mod c11;
 mod c18;
+mod c18v1;
 mod common;
 
 use vmon_core::{ChildCtx, Engine, Plan, Shard, Tier};
@@ -143,9 +144,9 @@ impl Engine for E {
                 p.floors.extend(f.drain(..).map(|(k, n)| (k.to_string(), n * s)));
             }
             "C18" => {
-                p.cases = if quick { 64 } else { 2000 };
+                p.cases = if quick { 96 } else { 2400 };
                 p.timeout_s = if quick { 900 } else { 3 * 3600 };
-                p.rule = "even cases: id statements - 1-5 committed attributes (Web3IdAttribute String of length 1..31 / Numeric), 1-4 atomic statements (reveal, in-range, in-set, not-in-set) generated at the boundaries (lower=value, value=upper-1, value=upper, value=lower-1, lower=upper, member first/last/absent/adjacent, set sizes 0,1,2,3,5,8,9), proof version 1 or 2, StatementWithContext::prove / verify. odd cases: web3id v0 presentations with 1-3 credentials (account and web3, empty statement lists allowed), Request::prove_with_rng / Presentation::verify incl. linking proof and JSON round trip. Ground truth = comparison of the documented field embeddings in the harness (independent of to_field_element, cross-checked). evaluations = judged executions: all-true sets must be proved, verify (to the original request) and reveal the committed values; a set with one false statement must not yield a verifying proof; every perturbation of statement / challenge / credential id / global context / version / commitments / proofs / public inputs / holder / contract / issuer signature / linking signatures must not verify (for the documented unchecked account metadata: must not verify to the original request). distinct_nontrivial = distinct all-true requests whose perturbations all ran".into();
+                p.rule = "even cases: id statements - 1-5 committed attributes (Web3IdAttribute String of length 1..31 / Numeric), 1-4 atomic statements (reveal, in-range, in-set, not-in-set) generated at the boundaries (lower=value, value=upper-1, value=upper, value=lower-1, lower=upper, member first/last/absent/adjacent, set sizes 0,1,2,3,5,8,9), proof version 1 or 2, StatementWithContext::prove / verify. odd cases: web3id v0 presentations with 1-3 credentials (account and web3, empty statement lists allowed), Request::prove_with_rng / Presentation::verify incl. linking proof and JSON round trip. idx%8==6: two web3id v1 presentations (RequestV1::prove_with_rng / PresentationV1::verify) over account based and identity based credentials (identity object issued in the case, id::identity_attributes_credentials as sub-proof), same oracle style, all perturbations of context / credential fields / statements / statement proofs / identity attributes and their proofs / ephemeral id / validity / verification material. idx%8==7: anchored verification flow (web3id/v1/anchor/verify.rs): one valid baseline (request data, anchor, block hash, presentation, material, verification context) and ~60 single-deviation scenarios (issuer allow-lists with 0-3 (idp, network) pairs incl. cross combinations, credential type, network, validity window boundaries, request-vs-anchor, block hash, context given/requested, claims, cryptographic failure, audit record), each judged against the expected PresentationVerificationResult computed in the harness. Ground truth = comparison of the documented field embeddings in the harness (independent of to_field_element, cross-checked). evaluations = judged executions: all-true sets must be proved, verify (to the original request) and reveal the committed values; a set with one false statement must not yield a verifying proof; every perturbation of statement / challenge / credential id / global context / version / commitments / proofs / public inputs / holder / contract / issuer signature / linking signatures must not verify (for the documented unchecked account metadata: must not verify to the original request). distinct_nontrivial = distinct all-true requests whose perturbations all ran".into();
                 p.assumptions.push("ground truth: harness embedding of attributes (String: length byte then right-aligned bytes; Numeric: the integer) compared as big integers; range statements are only demanded to be provable when value-lower < 2^64 and upper-value <= 2^64 (documented 64-bit technique)".into());
                 p.assumptions.push("StatementWithContext::prove uses thread_rng() inside the library; web3id proofs use prove_with_rng with the case PRNG; web3id v1 is not covered".into());
                 let s = if quick { 1 } else { 10 };
@@ -153,7 +154,7 @@ impl Engine for E {
                 for (k, n) in [
                     ("complete.id_statement_set", 60), ("complete.presentation", 60), ("complete.presentation.json_roundtrip", 60), ("id.false_statement_set", 30), ("pres.false_statement_set", 30),
                     ("id.revealed_value_checked", 40), ("pres.revealed_value_checked", 40), ("pres.credential.account", 80), ("pres.credential.web3", 80),
-                    ("pres.credentials.1", 25), ("pres.credentials.2", 25), ("pres.credentials.3", 25), ("reject.expected", 2500),
+                    ("pres.credentials.1", 25), ("pres.credentials.2", 25), ("pres.credentials.3", 25), ("reject.expected", 6000),
                     ("id.statement.range.value=upper.False", 3), ("id.statement.range.lower=value,value=upper-1.True", 30), ("id.statement.range.value=upper-1.True", 10),
                     ("id.statement.range.value=lower-1.False", 2), ("id.statement.range.lower=upper=value.False", 2), ("id.statement.in_set.member.True", 40), ("id.statement.in_set.absent.False", 4),
                     ("id.statement.in_set.adjacent_absent.False", 4), ("id.statement.in_set.empty_set.False", 1), ("id.statement.not_in_set.member.False", 10), ("id.statement.not_in_set.absent.True", 20),
@@ -168,6 +169,42 @@ impl Engine for E {
                 }
                 for k in ["account.cred_id", "account.network", "credentials.reordered", "global_context", "linking.signature_altered", "linking.signature_extra", "linking.signature_removed", "presentation_context", "public.commitment", "public.issuer_key", "public.missing", "proofs.exchanged", "statement.range.lower", "statement.range.upper", "statement.set.element_added", "statement.set.element_removed", "statement.tag", "web3.commitments.commitment", "web3.commitments.signature", "web3.contract", "web3.created", "web3.holder", "web3.network"] {
                     f.push((format!("perturb.pres.{}", k), 8 * s));
+                }
+                // web3id v1 presentations and the anchored verification flow
+                for k in [
+                    "baseline", "issuers.only_exact", "issuers.same_idp_other_network", "issuers.other_idp_same_network", "issuers.cross_network", "issuers.cross_network_3", "issuers.exact_last_of_3",
+                    "issuers.exact_first_mixed_networks", "issuers.empty", "source.excludes_type", "source.only_type", "context.network", "validity.at_lower", "validity.before_lower", "validity.last_second",
+                    "validity.at_upper", "validity.long_after", "validity.long_before", "anchor.request_context_changed", "anchor.request_issuers_changed", "anchor.request_statements_changed", "anchor.hash_changed",
+                    "anchor.block_hash", "claims.extra_statement_requested", "claims.extra_subject_requested", "claims.none_requested", "context.given_value_differs", "context.given_missing", "context.given_reordered",
+                    "context.requested_label_missing_in_presentation", "crypto.material_altered", "crypto.no_material", "crypto.presentation_altered", "crypto.global_context", "aux.baseline", "aux.no_block_hash_requested",
+                    "aux.block_hash_removed_from_presentation", "aux.block_hash_unparsable", "aux.block_hash_other_block", "aux.unknown_given_label", "aux.unknown_requested_label", "aux.invalid_given_value",
+                    "aux.extra_given_property", "aux.given_value_changed_in_presentation", "aux.extra_requested_property",
+                ] {
+                    f.push((format!("anchor.scenario.{}", k), 50 * s));
+                }
+                f.push(("anchor.scenario.claims.statement_differs".into(), 30 * s));
+                f.push(("anchor.scenario.issuers.random".into(), 150 * s));
+                for k in ["CredentialNotValidYet", "CredentialExpired", "Network", "PresentationUnverifiable", "RequestAnchor", "NoVraBlockHash", "VraBlockHash", "ContextInformation", "InvalidContextPropertyValue", "UnknownContextProperty", "SubjectClaims", "CredentialType", "CredentialIssuer"] {
+                    f.push((format!("anchor.result.Failed.{}", k), 50 * s));
+                }
+                for (k, n) in [
+                    ("anchor.result.Verified", 500), ("anchor.issuers.listed", 200), ("anchor.issuers.unlisted", 400), ("anchor.issuers.mixed_networks", 300), ("anchor.issuers.len0", 50), ("anchor.issuers.len1", 150),
+                    ("anchor.issuers.len2", 150), ("anchor.issuers.len3", 150), ("anchor.credential.identity", 30), ("anchor.credential.account", 30), ("audit.checked", 50),
+                    ("complete.v1_presentation", 60), ("complete.v1_presentation.json_roundtrip", 60), ("complete.v1_presentation.binary_roundtrip", 60), ("v1.credential.identity", 80), ("v1.credential.account", 80),
+                    ("v1.false_statement_set", 30), ("v1.revealed_value_checked", 20), ("v1.identity.validity_checked", 40),
+                    ("perturb.v1.statement.range.lower", 4), ("perturb.v1.statement.range.upper", 4), ("perturb.v1.statement.set.element_removed", 2), ("perturb.v1.statement.set.element_added", 10),
+                    ("perturb.v1.statement.tag", 10), ("perturb.v1.statement.value", 15), ("perturb.v1.identity.attributes.revealed_value", 10),
+                ] {
+                    f.push((k.to_string(), n * s));
+                }
+                for k in [
+                    "account.cred_id", "context.given", "context.given_to_requested", "context.property_value", "context.requested", "credential.created", "credential.issuer", "credential.network", "global_context",
+                    "identity.attributes.commitment", "identity.attributes.known_to_revealed", "identity.attributes.removed", "identity.ephemeral_id.share", "identity.ephemeral_id.threshold",
+                    "identity.ephemeral_id.trailing_byte", "identity.proofs.bitflip", "identity.proofs.challenge", "identity.proofs.sharing_coeff", "identity.proofs.signature", "identity.validity.created_at",
+                    "identity.validity.valid_to", "material.account.commitment", "material.account.issuer", "material.exchanged", "material.identity.ar_key", "material.identity.ip_identity", "material.identity.ip_key",
+                    "material.missing", "material.type_mismatch", "statement.dropped", "statement_proof.bitflip", "statement_proof.dropped", "statement_proof.exchanged",
+                ] {
+                    f.push((format!("perturb.v1.{}", k), 20 * s));
                 }
                 p.floors = f;
             }
